@@ -162,6 +162,14 @@ FUNCTIONS = [
                  'self.client.encryption': 'List[str]', 'self.server.encryption': 'List[str]', 'self.client.mac': 'List[str]', 'self.server.mac': 'List[str]',
                  'self.client.compression': 'List[str]', 'self.server.compression': 'List[str]', 'self.client.languages': 'List[str]',
                  'self.server.languages': 'List[str]', 'self.follows': 'bool', 'self.__unused': 'int'}, 'out': []}),
+    ('kex_parse', 'ssh2_kex.py', 'SSH2_Kex.parse', {'unit': 'Logic6', 'extract': 'proc',
+        'select': [('range', ('assign', 'cookie'), ('assign', 'unused'))],
+        'externals': {'buf.read': {'lean': 'read', 'args': [0], 'arg_types': ['int'], 'ret': ['bytes']},
+                      'buf.read_list': {'lean': 'read_list', 'args': [], 'arg_types': [], 'ret': ['List[str]']},
+                      'buf.read_bool': {'lean': 'read_bool', 'args': [], 'arg_types': [], 'ret': ['bool']},
+                      'buf.read_int': {'lean': 'read_int', 'args': [], 'arg_types': [], 'ret': ['int']}},
+        'free': {}, 'out': ['cookie', 'kex_algs', 'key_algs', 'cli_enc', 'srv_enc', 'cli_mac', 'srv_mac', 'cli_compression', 'srv_compression',
+                            'cli_languages', 'srv_languages', 'follows', 'unused']}),
     ('is_print_ascii_char', 'utils.py', 'Utils.is_print_ascii', {'unit': 'Logic2', 'extract': 'lambda', 'params': ['int']}),
     # candidates that are outside the subset (kept in the table so that the reason is reported on every run)
     ('ctoi', 'utils.py', 'Utils.ctoi', {}),
